@@ -6,7 +6,7 @@ pub fn dur_of_ns(ns: u128) -> Duration {
 }
 
 /// Runs `f` under catch_unwind; a panic is the observation "PANIC".
-pub fn guarded<F: FnOnce() -> String>(f: F) -> Result<String, ()> {
+pub fn guarded<T, F: FnOnce() -> T>(f: F) -> Result<T, ()> {
     std::panic::catch_unwind(std::panic::AssertUnwindSafe(f)).map_err(|_| ())
 }
 
